@@ -1,3 +1,4 @@
+import JsightVerif.Gen.Facts
 /-
   C16 — serialising is repeatable.
   Model of the lazily filled cells behind the accessors (catalog/exchange_schema_jsight.go,
@@ -146,5 +147,59 @@ def demo : Catalog := ⟨2, fun i => if i = 0 then .ok 7 else .error "type not f
 example : run demo (init demo) [.toJson, .title, .toJson] =
     [[(0, some (.ok 7), some 100), (0, some (.error "type not found"), some 101)], [(1, none, none)],
      [(0, some (.ok 7), some 100), (0, some (.error "type not found"), some 101)]] := by decide
+
+/-! ### tie of the cell model to the code: where fields of catalog types are written (regenerated facts) -/
+
+section Tie
+open JsightVerif.Gen JsightVerif.Model
+
+/-- functions of package `catalog` that assign to fields of catalog types and are called only while
+    the catalog is *built* (constructors, the setters of catalog/setters.go, the ordered maps and sets
+    the builder fills, the tag back-references): after `NewJapi` has returned none of them runs -/
+def buildTimeWriters : List String := [
+    "NewExchangeJSightSchema", "HTTPInteraction.SetPathVariables", "HTTPInteraction.appendTagName",
+    "newHTTPInteraction", "newHTTPInteractionID", "NewHTTPResponseBody", "Interactions.Map",
+    "Interactions.Set", "Interactions.SetToTop", "Interactions.Update",
+    "JsonRpcInteraction.appendTagName", "newJsonRpcInteraction", "newJsonRpcInteractionId",
+    "PathVariablesBuilder.Build", "NewRules", "RulesBuilder.Append", "RulesBuilder.Set",
+    "Servers.Map", "Servers.Set", "Servers.SetToTop", "Servers.Update", "Catalog.AddBaseURL",
+    "Catalog.AddDescriptionToHTTPMethod", "Catalog.AddDescriptionToInfo",
+    "Catalog.AddDescriptionToJsonRpcMethod", "Catalog.AddDescriptionToTag", "Catalog.AddInfo",
+    "Catalog.AddJSight", "Catalog.AddJsonRpcParams", "Catalog.AddJsonRpcResult",
+    "Catalog.AddOperationID", "Catalog.AddQueryToCurrentMethod", "Catalog.AddRequest",
+    "Catalog.AddRequestBody", "Catalog.AddRequestHeaders", "Catalog.AddResponse",
+    "Catalog.AddResponseBody", "Catalog.AddResponseHeaders", "Catalog.AddServer", "Catalog.AddTitle",
+    "Catalog.AddType", "Catalog.AddVersion", "Catalog.enumDirectiveToUserRule", "StringSet.Add",
+    "Tag.appendInteractionID", "TagHTTPInteractionGroup.append", "TagJsonRpcInteractionGroup.append",
+    "Tags.Map", "Tags.Set", "Tags.SetToTop", "Tags.Update", "UserRules.Map", "UserRules.Set",
+    "UserRules.SetToTop", "UserRules.Update", "UserSchemas.Map", "UserSchemas.Set",
+    "UserSchemas.Update", "UserTypes.Map", "UserTypes.Set", "UserTypes.SetToTop", "UserTypes.Update"]
+
+/-- functions that fill the lazily compiled exchange content of a schema — the cells of the model above;
+    they run inside `ExchangeJSightSchema.Compile`'s `sync.Once` (reached from MarshalJSON) -/
+def lazyCellWriters : List String := [
+    "ExchangeContent.Unshift", "ExchangeContent.collectJSightContentArrayItems",
+    "ExchangeContent.collectJSightContentObjectProperties",
+    "ExchangeContent.inheritPropertiesFromUserType", "ExchangeJSightSchema.buildContent"]
+
+/-- **C16 (write sites pinned)**: outside `sync.Once` bodies, the functions that assign to a field of a
+    catalog type are exactly the build-time writers and the cell fillers listed here.  A new write site —
+    an accessor that stores a default into the catalog, an export that normalises the catalog in place —
+    breaks this obligation on the regenerated facts. -/
+theorem C16_writers_pinned :
+    (catalogFieldWrites.all fun s => (buildTimeWriters ++ lazyCellWriters).contains s.fn) = true ∧
+    ((buildTimeWriters ++ lazyCellWriters).all fun f => catalogFieldWrites.any fun s => s.fn == f) = true := by
+  decide +kernel
+
+/-- **C16 (exporters write nothing)**: `kit` (the accessors ToJson / ToJsonIndent / ToOpenAPIJson / Title)
+    and `catalog/ser/openapi` (the OpenAPI converter) contain no assignment to a field of a catalog type -/
+theorem C16_exporters_write_nothing : (catalogFieldWrites.all fun s => s.pkg == "catalog") = true := by
+  decide +kernel
+
+/-- **C16 (no in-place reordering)**: no call of `sort.*` / `slices.*` in catalog, kit or the OpenAPI
+    converter (sorting a slice of the catalog in place would change what later calls return) -/
+theorem C16_no_inplace_sort : sortCalls = [] := by decide
+
+end Tie
 
 end JsightVerif.Props.C16
